@@ -29,6 +29,7 @@ import RotoV.Model.Lifetime
 import RotoV.Lemmas.Lifetime
 import RotoV.Lemmas.LifetimeOps
 import RotoV.Lemmas.LifetimeKeep
+import RotoV.Lemmas.LifetimeAddr
 import RotoV.Generated.Lifetime
 
 namespace RotoV.C11
@@ -197,7 +198,67 @@ theorem called_fns_kept :
       ∧ ∀ key, (∀ (called : List Sib) (f : Sib), f ∈ called → f ∈ keep key called) ↔ key = .perArc :=
   ⟨(keep_holds_called_iff facts.fnsKeep).2 (good_of_goodB facts_good).keep, keep_holds_called_iff⟩
 
+/-- **T7.** Unchanged constants: for a script with any number `n` of script constants — constants and the
+    functions reading them generated interleaved, the constant table growing as it must — every constant
+    address baked into the code is still valid when `codegen` is done and for as long as the module lives,
+    because (generated fact `constStore`) the value lives in an allocation of its own that the
+    `RotoConstant` owns until it is dropped with the module (T2), and that allocation never moves. -/
+theorem baked_const_addresses_stay_valid (n : Nat) : allBakedValid constStore n = true := by
+  have h : constStore = .ownAlloc := by decide
+  rw [h]; exact ownAlloc_all_valid n
+
+/-- **T7'.** … and that is exactly the discipline needed: the baked addresses stay valid for every number of
+    constants iff the values do not live inside the table's entries (with 4 or more constants the first bucket
+    array, into which the getter of constant 0 points, has been freed). -/
+theorem baked_addresses_need_own_alloc (st : ConstStore) : (∀ n, allBakedValid st n = true) ↔ st = .ownAlloc := by
+  constructor
+  · intro h
+    cases st with
+    | ownAlloc => rfl
+    | inMapEntry =>
+      have h4 := h 4
+      rw [inMapEntry_stale 4 (Nat.le_refl 4)] at h4
+      exact absurd h4 (by decide)
+  · rintro rfl n
+    exact ownAlloc_all_valid n
+
+/-- **T8.** State captured by registered closures is released while the module's code still exists: inside the
+    drop of a module whose code is mapped, nothing frees the code ahead of the fields (no `free_memory` in a
+    `Drop for ModuleData`), and after the fields declared before `_registered_fns` have been dropped the code
+    is still mapped — so when the module holds the last `Arc` of a closure whose state kept script-built values
+    (a `List[String]`: its drop glue is code of this module), that state is dropped by working code; the code
+    is freed afterwards.  (Fails to check when the JIT module is declared before `_registered_fns`, or the
+    code is freed in `Drop for ModuleData`.) -/
+theorem closure_state_released_before_code (s : St) (k : Nat) (hm : s.mapped k = true) :
+    fnsBeforeCodeB facts = true
+      ∧ FreeSite.moduleDataDrop ∉ facts.freeSites
+      ∧ (dropFields facts k (beforeFns facts.moduleFields) s).mapped k = true
+      ∧ (dropModule facts k s).mapped k = false := by
+  have D := dropModule_spec (good_of_goodB facts_good) k s hm
+  refine ⟨by decide, by decide, ?_, ?_⟩
+  · rw [dropFields_mapped_of_no_jit facts k _ s (by decide)]; exact hm
+  · rw [D.mapped, upd_same]
+
 /-! ### non-vacuity -/
+
+/-- T7 has teeth: with the values inside the map's entries a script with 5 constants has stale addresses in its
+    code (the two baked before the 4th insertion), one with 3 has none; with allocations of their own none -/
+example : bakedValidity .inMapEntry 5 = [false, false, false, false, false, false, true, true, true, true]
+    ∧ allBakedValid .inMapEntry 3 = true ∧ allBakedValid .inMapEntry 9 = false
+    ∧ allBakedValid .inMapEntry 16 = false ∧ allBakedValid .inMapEntry 30 = false
+    ∧ allBakedValid constStore 40 = true := by
+  decide
+
+/-- the table model grows where hashbrown does (compared with the real `std::collections::HashMap` on every run) -/
+example : growthPoints 120 = [1, 4, 8, 15, 29, 57, 113] := by decide
+
+/-- T8 has teeth: with the JIT module before `_registered_fns`, or the code freed by a `Drop for ModuleData`,
+    the closure state would be released after the code; the hypothesis of T8 is that of T3 -/
+example : fnsBeforeCodeB { facts with moduleFields := [.constants, .rotoConstants, .jit, .registeredFns] } = false
+    ∧ fnsBeforeCodeB { facts with freeSites := [.moduleDataDrop] } = false
+    ∧ goodB { facts with moduleFields := [.constants, .rotoConstants, .jit, .registeredFns] } = false
+    ∧ goodB { facts with moduleFields := [.registeredFns, .rotoConstants, .jit, .constants] } = true := by
+  decide
 
 /-- a hot-reload history: runtime with constant and closure, version 1 compiled
     and a handle taken, version 2 compiled, then runtime, both packages dropped:
